@@ -10,6 +10,7 @@ pub mod pair;
 pub mod hs;
 pub mod refpeer;
 pub mod deadline;
+pub mod pcfp;
 use crate::{Args, Rng, Run, hex, unhex};
 use bytes::Bytes;
 use pair::*;
